@@ -15,6 +15,11 @@ package core_test
 //     header; each in turn for small witnesses, a drawn subset otherwise): the call
 //     returns an error (or the witness is rejected when decoded), or it returns the true
 //     roots (the element was not needed) - never different roots, never a panic.
+//
+// About half of the worlds carry worldgen's engineered branch collapse (Options.Collapse):
+// the witnessed block deletes a slot / an account whose parent branch node keeps exactly
+// one other child, so that the witness holds a sibling node that no EVM read touches and
+// that is resolved only while the tries are updated at the end of the block.
 
 import (
 	"bytes"
